@@ -193,7 +193,13 @@ def coq_build(targets, force=(), timeout=900, jobs=NPROC):
                     todo.append(v)
                 else:
                     done.add(v)
-            results = list(ex.map(lambda v: (v, coqc(v, timeout)), todo))
+            def one(v):
+                # per-file lock: concurrent checks may share parts of their cones
+                with Lock("f-" + hashlib.sha1(v.encode()).hexdigest()[:12]):
+                    if v not in force and not _stale(v):
+                        return v, (0, "built by a concurrent process", 0.0)
+                    return v, coqc(v, timeout)
+            results = list(ex.map(one, todo))
             for v, (rc, out, secs) in results:
                 logs[v] = (rc, out, secs)
                 if rc != 0:
@@ -415,8 +421,7 @@ class Ctx:
     def prove(self, allowed_axioms=()):
         """build the cone of Props/<pid>.v, audit assumptions and forbidden tokens"""
         props = os.path.join(TH, "Props", self.pid + ".v")
-        with Lock():
-            ok, logs, failed = coq_build([props], force=[props])
+        ok, logs, failed = coq_build([props], force=[props])
         self.checker_cmds.append("coqc -q -Q coq/theories OBB <cone of Props/%s.v> (full .vo build, %d files)" % (self.pid, len(coq_cone(props))))
         cone = coq_cone(props)
         self.extra["coq_files"] = [os.path.relpath(v, TH) for v in cone]
@@ -465,7 +470,7 @@ class Ctx:
     # ---- model
     def model(self, group, lines):
         if not getattr(self, "_built_" + group, False):
-            with Lock():
+            with Lock("model-" + group):
                 ok, log = build_model(group)
             if not ok:
                 self.proof_failures.append(("extraction:" + group, log))
